@@ -59,3 +59,43 @@ macro_rules! placed {
         let $v: &[u8] = $crate::engine::place::place(&mut $v, __residue);
     };
 }
+
+/// An output buffer for the subject's writers that starts at a chosen address residue modulo 8: the residue rotates
+/// with the case index and with the number of output buffers the running case has already made
+/// (`guard::out_residue`), so it is a function of the case alone.
+pub struct OutBuf {
+    v: Vec<u8>,
+    off: usize,
+    len: usize,
+}
+
+impl OutBuf {
+    pub fn new(cap: usize, fill: impl Fn(usize) -> u8) -> OutBuf {
+        let residue = crate::engine::guard::out_residue();
+        let mut v: Vec<u8> = Vec::with_capacity(cap + 16);
+        let base = v.as_ptr() as usize;
+        let off = (residue + 8 - base % 8) % 8;
+        v.resize(off, 0xEE);
+        v.extend((0..cap).map(fill));
+        debug_assert_eq!(v.as_ptr() as usize, base);
+        OutBuf { v, off, len: cap }
+    }
+    pub fn into_vec(mut self) -> Vec<u8> {
+        self.v.truncate(self.off + self.len);
+        self.v.drain(..self.off);
+        self.v
+    }
+}
+
+impl std::ops::Deref for OutBuf {
+    type Target = [u8];
+    fn deref(&self) -> &[u8] {
+        &self.v[self.off..self.off + self.len]
+    }
+}
+
+impl std::ops::DerefMut for OutBuf {
+    fn deref_mut(&mut self) -> &mut [u8] {
+        &mut self.v[self.off..self.off + self.len]
+    }
+}
